@@ -36,7 +36,7 @@ func ImpliedType(buf []byte) (cty.Type, error) {
 	dec := json.NewDecoder(r)
 	dec.UseNumber()
 
-	ty, err := impliedType(dec)
+	ty, err := impliedType(dec, 0)
 	if err != nil {
 		return cty.NilType, err
 	}
@@ -48,16 +48,23 @@ func ImpliedType(buf []byte) (cty.Type, error) {
 	return ty, nil
 }
 
-func impliedType(dec *json.Decoder) (cty.Type, error) {
+// maxNestingDepth is the deepest nesting of arrays and objects that
+// ImpliedType will follow, matching the limit that encoding/json itself
+// imposes when unmarshaling. The type is inferred recursively, so without a
+// limit a few megabytes of opening brackets would exhaust the goroutine stack
+// and crash the program rather than returning an error.
+const maxNestingDepth = 10000
+
+func impliedType(dec *json.Decoder, depth int) (cty.Type, error) {
 	tok, err := dec.Token()
 	if err != nil {
 		return cty.NilType, err
 	}
 
-	return impliedTypeForTok(tok, dec)
+	return impliedTypeForTok(tok, dec, depth)
 }
 
-func impliedTypeForTok(tok json.Token, dec *json.Decoder) (cty.Type, error) {
+func impliedTypeForTok(tok json.Token, dec *json.Decoder, depth int) (cty.Type, error) {
 	if tok == nil {
 		return cty.DynamicPseudoType, nil
 	}
@@ -73,12 +80,15 @@ func impliedTypeForTok(tok json.Token, dec *json.Decoder) (cty.Type, error) {
 		return cty.String, nil
 
 	case json.Delim:
+		if depth >= maxNestingDepth {
+			return cty.NilType, fmt.Errorf("exceeded maximum nesting depth of %d", maxNestingDepth)
+		}
 
 		switch rune(ttok) {
 		case '{':
-			return impliedObjectType(dec)
+			return impliedObjectType(dec, depth+1)
 		case '[':
-			return impliedTupleType(dec)
+			return impliedTupleType(dec, depth+1)
 		default:
 			return cty.NilType, fmt.Errorf("unexpected token %q", ttok)
 		}
@@ -88,7 +98,7 @@ func impliedTypeForTok(tok json.Token, dec *json.Decoder) (cty.Type, error) {
 	}
 }
 
-func impliedObjectType(dec *json.Decoder) (cty.Type, error) {
+func impliedObjectType(dec *json.Decoder, depth int) (cty.Type, error) {
 	// By the time we get in here, we've already consumed the { delimiter
 	// and so our next token should be the first object key.
 
@@ -119,7 +129,7 @@ func impliedObjectType(dec *json.Decoder) (cty.Type, error) {
 			return cty.NilType, err
 		}
 
-		aty, err := impliedTypeForTok(tok, dec)
+		aty, err := impliedTypeForTok(tok, dec, depth)
 		if err != nil {
 			return cty.NilType, err
 		}
@@ -160,7 +170,7 @@ func impliedObjectType(dec *json.Decoder) (cty.Type, error) {
 	return cty.Object(atys), nil
 }
 
-func impliedTupleType(dec *json.Decoder) (cty.Type, error) {
+func impliedTupleType(dec *json.Decoder, depth int) (cty.Type, error) {
 	// By the time we get in here, we've already consumed the [ delimiter
 	// and so our next token should be the first value.
 
@@ -178,7 +188,7 @@ func impliedTupleType(dec *json.Decoder) (cty.Type, error) {
 			}
 		}
 
-		ety, err := impliedTypeForTok(tok, dec)
+		ety, err := impliedTypeForTok(tok, dec, depth)
 		if err != nil {
 			return cty.NilType, err
 		}
